@@ -658,3 +658,74 @@ func TestVF_C40_Run(t *testing.T) {
 		})
 	})
 }
+
+// TestVF_C40_Wakeup — the liveness half of "while open": a job accepted by an open Dissolver is executed even when
+// its Submit lands exactly while the last busy worker is going back to sleep (the classic lost-wakeup window
+// between "queue is empty" and parking on the condition variable). One case = one Dissolver with 1-2 workers and a
+// drawn number of one-at-a-time submissions; the job reports, then spins a drawn amount before returning, and the
+// submitter spins a drawn amount before the next Submit, so the two sides cross each other in every phase (the
+// spin counts sweep 0..pa-1 x 0..pb-1 with drawn pa, pb). The oracle needs no wall clock: inside the bubble the
+// one-second timer can only fire when every goroutine is durably blocked, i.e. the job sits in the queue while all
+// workers are parked.
+func TestVF_C40_Wakeup(t *testing.T) {
+	if vfC40Failed.Load() {
+		t.Skip("TestVF_C40 reported a violation")
+	}
+	vfCheck(t, "C40", func(rt *rapid.T, c *vfCase) string {
+		workers := rapid.SampledFrom([]int{1, 1, 1, 2}).Draw(rt, "workers")
+		n := rapid.IntRange(200, 600).Draw(rt, "submissions")
+		pa := rapid.IntRange(1, 97).Draw(rt, "spinAfterMod")
+		pb := rapid.IntRange(1, 97).Draw(rt, "spinBeforeMod")
+		oa := rapid.IntRange(0, 96).Draw(rt, "spinAfterOff")
+		ob := rapid.IntRange(0, 96).Draw(rt, "spinBeforeOff")
+		fail := rapid.SampledFrom([]int{0, 0, 0, 1}).Draw(rt, "failFirstRun")
+		c.Describe(fmt.Sprintf("wakeup: workers=%d submissions=%d spinAfter=(i+%d)%%%d spinBefore=(i/%d+%d)%%%d failFirstRun=%d", workers, n, oa, pa, pa, ob, pb, fail))
+		c.Label("one_at_a_time_submissions_racing_worker_parking")
+		c.Nontrivial(c.desc)
+		return vfC40Bubble(t, func() string {
+			d := New(workers)
+			if err := d.Run(); err != nil {
+				return fmt.Sprintf("Run failed: %v", err)
+			}
+			defer func() { _ = d.Close() }()
+			var sink atomic.Int64
+			spin := func(k int) {
+				for ; k > 0; k-- {
+					sink.Add(1)
+				}
+			}
+			timer := time.NewTimer(time.Hour)
+			defer timer.Stop()
+			for i := 0; i < n; i++ {
+				done := make(chan struct{})
+				var runs atomic.Int32
+				after, before := (i+oa)%pa, (i/pa+ob)%pb
+				err := d.Submit(func() error {
+					if int(runs.Add(1)) <= fail {
+						return errors.New("retry")
+					}
+					close(done)
+					spin(after)
+					return nil
+				})
+				if err != nil {
+					return fmt.Sprintf("Submit %d on an open dissolver failed: %v", i, err)
+				}
+				timer.Reset(time.Second)
+				select {
+				case <-done:
+				case <-timer.C:
+					return fmt.Sprintf("submission %d of %d (workers=%d): the job was accepted by an open dissolver but is not executed while every worker is idle (runs so far %d)", i, n, workers, runs.Load())
+				}
+				if !timer.Stop() {
+					select {
+					case <-timer.C:
+					default:
+					}
+				}
+				spin(before)
+			}
+			return ""
+		})
+	})
+}
